@@ -10,6 +10,11 @@ NOTE = ("Trusted: Lean 4.33 kernel; axioms propext/Classical.choice/Quot.sound o
         "-O2 build (thorough: also -O0 and -march=native, all alignments). Constants and README tables are regenerated from "
         "/repo on every run (tools/gen.py). Clauses not yet carried by a theorem are listed in the evidence under not_yet_proved.")
 CLAIMED = {
+ "C09": ("Refinement theorem: the slot-level get/set of varintPacked.h are bit-field extract/insert of the slot array read as "
+         "one little-endian number, for every slot width, value width and index with an element spanning at most two slots; "
+         "hence read-after-write, isolation of every other element and of every storage bit, slots touched; lower-bound "
+         "search; incr/half locality. 103 real instantiations of the header are driven through random histories against a "
+         "reference array", "Lean 4 refinement proof (Nat.testBit extensionality) + differential histories on 103 instantiations"),
  "C11": ("Theorems parametric in the slot width W, bit offset, field width 1..W, value and prior contents: read-after-write, "
          "every bit outside the range unchanged, only overlapping words written; signed helpers; the four instantiations of "
          "the header are exercised exhaustively over (offset mod W, width)",
